@@ -21,7 +21,7 @@ const HELPERS: [&[&str]; 6] = [
     &["#[typeshare(skip)]", "#[typeshare(serialized_as = \"u32\")]"],
 ];
 /// neighbouring non-typeshare attributes (must survive untouched); `{R}` is a per-member unique rename
-const NEIGHBOURS: [&str; 10] = [
+const NEIGHBOURS: [&str; 13] = [
     "",
     "#[serde(rename = \"{R}\")]",
     "#[serde(skip)]",
@@ -33,6 +33,10 @@ const NEIGHBOURS: [&str; 10] = [
     "#[serde(rename = \"typeshare_{R}\")]",
     "#[doc = \" see the typeshare docs\"]",
     "#[cfg(not(feature = \"typeshare\"))]",
+    // conditional attributes on members: list-shaped, name-value-shaped, and one whose predicate is false
+    "#[cfg_attr(all(), allow(dead_code))]",
+    "#[cfg_attr(all(), doc = \" conditionally documented member\")]",
+    "#[cfg_attr(any(), serde(skip))]",
 ];
 
 #[derive(Clone, Debug, Default)]
@@ -492,7 +496,7 @@ pub fn run(args: &[String]) -> i32 {
     rep.cov("crate_build_wall_s", json!(walls));
     rep.cov("exhaustive", json!(true));
     facade_family(&mut rep);
-    rep.cov("rule", json!("9 item kinds × every #[typeshare(...)] argument list × for every member position: every helper attribute list × neighbouring attribute before × after (quick: one neighbour at a time; thorough: both, plus helpers on two members at once) × derive before/after #[typeshare]; every case emitted twice (annotated / stripped twin) in one generated crate, compiled by rustc with the real typeshare-annotation macro; a harness attribute macro below #[typeshare] records the item's tokens: they must equal the twin's, and serde_json output / cross-deserialisation must agree. non-trivial = at least one nested helper attribute present."));
+    rep.cov("rule", json!("9 item kinds × every #[typeshare(...)] argument list × for every member position: every helper attribute list × neighbouring attribute (13 kinds, incl. cfg_attr with a list-shaped, a name-value and an inactive entry) before × after (quick: one neighbour at a time; thorough: both, plus helpers on two members at once) × derive before/after #[typeshare]; every case emitted twice (annotated / stripped twin) in one generated crate, compiled by rustc with the real typeshare-annotation macro; a harness attribute macro below #[typeshare] records the item's tokens: they must equal the twin's, and serde_json output / cross-deserialisation must agree. non-trivial = at least one nested helper attribute present."));
     rep.assume("one toolchain (the installed rustc); serde 1.0.214 from the cargo cache");
     rep.assume("cases in which a member is compiled out (cfg(any())) or serde-skipped in tuple/enum position are compared on tokens only");
     rep.finish()
